@@ -428,7 +428,10 @@ fn dir_plan(r: &mut Rng) -> DirPlan {
             }
             6 | 7 => ops.push(DirOp::Flush),
             _ => {
-                if dirents < slots && nalloc > 0 {
+                if dirents < slots && nalloc > 0 && r.chance(1, 4) {
+                    ops.push(DirOp::EntryOnly { stream_type: 1 + r.below(30) as u32, from_alloc: r.below(nalloc as u64) as u32 });
+                    dirents += 1;
+                } else if dirents < slots && nalloc > 0 {
                     ops.push(DirOp::Dirent { stream_type: 1 + r.below(30) as u32, from_alloc: r.below(nalloc as u64) as u32 });
                     dirents += 1;
                 }
